@@ -559,6 +559,11 @@ def rule_greedy_recursion(rep, crate):
                 nm = g.callee_name(c['root'][2])
                 if re.search(r'Option::<T>::unwrap_or$', nm) and 'allow_greedy' in desc(g, c['root'][2]['args'][0]) and const_int(c['root'][2]['args'][1]) == 0:
                     allow = c
+                # equivalent: definition.allow_greedy == Some(true)
+                if re.search(r'PartialEq(<.*>)?>?::eq$', nm) and len(c['root'][2]['args']) == 2:
+                    ds = [desc(g, a) for a in c['root'][2]['args']]
+                    if any('allow_greedy' in d for d in ds) and any(re.fullmatch(r'agg:std::option::Option::Some\{0=const:1\}|const:std::option::Option::<bool>::Some\(true\)', d) for d in ds):
+                        allow = c
                 if re.search(r'check_for_greedy_all$', nm):
                     has = c
             eb = errs[0][0]
@@ -1409,6 +1414,30 @@ def parsed_unchanged(crate, fn, op, depth=0):
     return True, ''
 
 
+def _priority_slot_helpers(crate, fn):
+    """calls in `fn` that hand `&mut self.priority` to a crate-local function: [(helper fn, stored operand, line)] for every
+    Option::replace/insert on that parameter inside the helper"""
+    out = []
+    for b, t in fn.calls():
+        g = crate.fns.get(fn.callee_name(t))
+        if g is None or g.kind not in ('Fn', 'AssocFn'):
+            continue
+        for i, a in enumerate(t['args']):
+            pl = op_place(a)
+            if pl is None:
+                continue
+            sl0 = fn.slice(a, through_calls=False)
+            if '&mut' in str(fn.locals[pl['local']]) and any(l == 1 and tuple(fl)[-1:] == ('priority',) for l, fl in sl0.fields):
+                pidx = i + 1
+                for hb, ht in g.calls():
+                    if re.search(r'Option::<T>::(replace|insert|get_or_insert)$', g.callee_name(ht)) and desc(g, ht['args'][0]) in ('param%d' % pidx,):
+                        out.append((g, ht['args'][1], ht['line']))
+                for bi, si, st in g.stmts():
+                    if st['lhs']['local'] == pidx and any(p['k'] == 'deref' for p in st['lhs']['proj']) and not fields_of(st['lhs']):
+                        out.append((g, st['rhs'].get('a'), st['line']))
+    return [x for x in out if x[1] is not None]
+
+
 def rule_priority_parse(rep, crate):
     rid = rep.rule('M-C09d', 'explicit priority: the value Definition::named_attr stores into self.priority (a usize) is the result of str::parse of the attribute text, handed on without integer cast, From/Into/TryFrom conversion or arithmetic (private helpers are followed): a narrower parse type would need such a conversion, so every n that fits usize replaces the default', floor=1)
     fn = crate.fns.get('parser::definition::Definition::named_attr')
@@ -1428,7 +1457,14 @@ def rule_priority_parse(rep, crate):
                 stores.append((st['rhs']['a'], st['line']))
         else:
             stores.append((None, st['line']))
-    if not rep.anchor(rid, 'store into self.priority in named_attr', bool(stores)):
+    # form 3: `&mut self.priority` handed to a private helper that parses and stores into the slot
+    slot_stores = _priority_slot_helpers(crate, fn)
+    for h, op, line in slot_stores:
+        ok, why = parsed_unchanged(crate, h, op)
+        rep.inst(rid, 'priority-store:via:%s' % short(h.name), detail=dict(value=desc(h, op)[:120], ok=ok))
+        if not ok:
+            rep.viol(rid, 'priority-store:value', 'the helper %s stores %s into the priority slot, which is not the unmodified result of parsing the attribute text (%s)' % (h.name, desc(h, op)[:120], why), loc(h, line))
+    if not rep.anchor(rid, 'store into self.priority in named_attr', bool(stores) or bool(slot_stores)):
         return
     for op, line in stores:
         d = desc(fn, op) if op is not None else '?'
@@ -1464,6 +1500,17 @@ def rule_priority_writers(rep, crate):
                     sl = fn.slice(t['args'][0], through_calls=False)
                     if any('definition::Definition' in str(fn.locals[l]) for l in sl.locals):
                         writers.append((name, fn, dict(line=t['line']), 'option-method'))
+    na = crate.fns.get('parser::definition::Definition::named_attr')
+    if na is not None and _priority_slot_helpers(crate, na):
+        writers.append(('parser::definition::Definition::named_attr', na, dict(line=None), 'slot-helper'))
+    # any other function that takes `&mut <Definition>.priority`
+    for name, fn in sorted(crate.fns.items()):
+        if name == 'parser::definition::Definition::named_attr':
+            continue
+        for bi, si, st in fn.stmts():
+            rhs = st['rhs']
+            if bi in fn.live_blocks() and rhs['rv'] == 'ref' and rhs.get('mut') and fields_of(rhs['place'])[-1:] == ['priority'] and 'definition::Definition' in str(fn.locals[rhs['place']['local']]):
+                writers.append((name, fn, st, '&mut'))
     rep.inst(rid, 'definition-priority-writers', detail=[(n, k) for n, _f, _s, k in writers])
     ok_seen = False
     for name, fn, st, kind in writers:
